@@ -13,6 +13,7 @@ Executed on the real generated code against the Qt API model:
   H4  ambiguous overloads, non-signals, unknown names and incompatible parameters are rejected.
 """
 import itertools
+import re
 import json
 
 import harness
@@ -105,8 +106,9 @@ def prepare_h1(vd, k, sk, t):
 def judge_h1(t, p, res):
     m = p.meta
     if res["compile_error"]:
+        # an accepted program whose generated code does not compile computes / does nothing at all
         t.inc("programs_not_compiling")
-        t.lost.append({"id": m["k"], "compile_error": res["compile_error"][-300:]})
+        t.violation("generated-code-does-not-compile", {"id": m["k"], "source": m.get("source"), "compile_error": res["compile_error"][-700:]})
         return
     if res["crash"]:
         what = "hang:handler-does-not-terminate" if res["crash"].startswith("timeout") else "crash:handler-crashed"
@@ -190,8 +192,9 @@ def prepare_h2(vd, k, case, t):
 def judge_h2(t, p, res):
     m = p.meta
     if res["compile_error"]:
+        # an accepted program whose generated code does not compile computes / does nothing at all
         t.inc("programs_not_compiling")
-        t.lost.append({"id": m["label"], "compile_error": res["compile_error"][-300:]})
+        t.violation("generated-code-does-not-compile", {"id": m["label"], "source": m.get("source"), "compile_error": res["compile_error"][-700:]})
         return
     if res["crash"]:
         t.violation("crash:handler-crashed", {"source": m["source"], "crash": res["crash"][-500:]})
@@ -255,8 +258,9 @@ def prepare_h3(vd, case, t):
 def judge_h3(t, p, res):
     m = p.meta
     if res["compile_error"]:
+        # an accepted program whose generated code does not compile computes / does nothing at all
         t.inc("programs_not_compiling")
-        t.lost.append({"id": m["handler"], "compile_error": res["compile_error"][-300:]})
+        t.violation("generated-code-does-not-compile", {"id": m["handler"], "source": m.get("source"), "compile_error": res["compile_error"][-700:]})
         return
     if res["crash"]:
         t.violation("crash:handler-crashed", {"source": m["source"], "crash": res["crash"][-500:]})
@@ -305,6 +309,86 @@ REJECTS = [
 ]
 
 
+# handlers inside an object-valued property group: rejected today; if a version accepts them, the
+# connection has to be there
+GROUP_HANDLERS = [
+    ("table-header-dotted", "QTableView", "horizontalHeader.onSectionClicked: a.act()", "sectionClicked"),
+    ("table-header-braces", "QTableView", "verticalHeader { onSectionClicked: a.act() }", "sectionClicked"),
+    ("tree-header-dotted", "QTreeView", "header.onSectionClicked: a.act()", "sectionClicked"),
+    ("tree-header-with-parameter", "QTreeView", "header.onSectionClicked: function(i: int) { a.done(i) }", "sectionClicked"),
+]
+
+
+# --------------------------------------------------------------------------- H5 gadget-typed parameters
+
+def h5_cases():
+    """(label, class, handler binding, emit code, checker(trace list) -> problem or None)"""
+    def font_call(tr, obj, **want):
+        if len(tr) != 1 or not tr[0].startswith(f"{obj}.setFont({{"):
+            return f"expected exactly one {obj}.setFont(...)"
+        fields = dict(f.split("=", 1) for f in tr[0][len(obj) + 10:-2].split(",") if "=" in f)
+        for k, v in want.items():
+            if fields.get(k) != v:
+                return f"{k}={fields.get(k)} (expected {v})"
+        return None
+    emit_font = "{ QFont ff; ff.setPointSize(5); t->currentFontChanged(ff); }"
+    yield ("font-passed-on", "QFontComboBox", "onCurrentFontChanged: function(f: QFont) { a.font = f }", emit_font,
+           lambda tr: font_call(tr, "a", pointSize="5", bold="false"))
+    yield ("font-member-written", "QFontComboBox", "onCurrentFontChanged: function(f: QFont) { f.bold = true; a.font = f }", emit_font,
+           lambda tr: font_call(tr, "a", pointSize="5", bold="true"))
+    yield ("font-two-members-written", "QFontComboBox",
+           "onCurrentFontChanged: function(f: QFont) { f.bold = true; f.pointSize = f.pointSize + 1; a.font = f }", emit_font,
+           lambda tr: font_call(tr, "a", pointSize="6", bold="true"))
+    yield ("font-parameter-reassigned", "QFontComboBox",
+           "onCurrentFontChanged: function(f: QFont) { let g = f; f = b0.font; a.font = g; }", emit_font,
+           lambda tr: font_call(tr, "a", pointSize="5", bold="false"))
+    yield ("font-written-under-condition", "QFontComboBox",
+           "onCurrentFontChanged: function(f: QFont) { if (f.pointSize > 3) { f.italic = true } a.font = f }", emit_font,
+           lambda tr: font_call(tr, "a", pointSize="5", italic="true"))
+    yield ("font-unused-parameter", "QFontComboBox", "onCurrentFontChanged: function(f: QFont) { a.done(1) }", emit_font,
+           lambda tr: None if tr == ["a.done(1)"] else "expected a.done(1)")
+    yield ("size-passed-on", "QToolBar", "onIconSizeChanged: function(z: QSize) { a.minimumSize = z }",
+           "{ QSize zz; zz.m_width = 3; zz.m_height = 4; t->iconSizeChanged(zz); }",
+           lambda tr: None if tr == ["a.setMinimumSize({width=3,height=4})"] else "expected a.setMinimumSize({width=3,height=4})")
+
+
+def prepare_h5(vd, k, case, t):
+    label, cls, binding, emit, chk = case
+    src = HEAD + f"    {cls} {{\n        id: t\n        {binding}\n    }}\n}}\n"
+    pid = f"G{k}"
+    res = vd.job({"id": k, "source": src, "modes": ["generate"], "type_name": pid})
+    g = res["modes"]["generate"]
+    if res.get("has_syntax_error"):
+        raise vc.MachineryError("H5 document does not parse:\n" + src)
+    if not vc.accepted(g, False):
+        t.inc("h5_rejected")        # writing to a parameter may legitimately be unsupported
+        return None
+    return harness.Program(pid, g["ui"], g["header"], trace_driver([], [{}], [("e", emit)]),
+                           {"label": label, "source": src, "chk": chk})
+
+
+def judge_h5(t, p, res):
+    m = p.meta
+    if res["compile_error"]:
+        t.inc("programs_not_compiling")
+        t.violation("generated-code-does-not-compile", {"id": m["label"], "source": m["source"], "compile_error": res["compile_error"][-700:]})
+        return
+    if res["crash"]:
+        t.violation("crash:handler-crashed", {"source": m["source"], "crash": res["crash"][-500:]})
+        return
+    got = dict(res["lines"])
+    have = got.get("0:e")
+    t.inc("evaluations")
+    t.inc("programs")
+    t.distinct.add(("h5", m["label"]))
+    if have is None or not have.startswith("1#"):
+        t.violation("handler:connection-count-differs-from-source", {"source": m["source"], "observed": have, "also": got.get("0:e!")})
+        return
+    problem = m["chk"]([x for x in have[2:].split(";") if x])
+    if problem:
+        t.violation(f"handler:gadget-parameter:{m['label']}", {"source": m["source"], "problem": problem, "observed": have})
+
+
 def shard_work(shard, nshards, payload):
     tier = payload["tier"]
     vd = vc.worker_vdrive()
@@ -334,10 +418,15 @@ def shard_work(shard, nshards, payload):
             p = prepare_h3(vd, case, t)
             if p is not None:
                 other.append(("h3", p))
+    for k, case in enumerate(h5_cases()):
+        if k % nshards == shard:
+            p = prepare_h5(vd, k, case, t)
+            if p is not None:
+                other.append(("h5", p))
     if other:
         res = harness.run_batch([p for _k, p in other], tag=f"c13o-{shard}")
         for kind, p in other:
-            (judge_h2 if kind == "h2" else judge_h3)(t, p, res[p.pid])
+            {"h2": judge_h2, "h3": judge_h3, "h5": judge_h5}[kind](t, p, res[p.pid])
     if shard == 0:
         for label, text in REJECTS:
             src = HEAD + f"    VObj {{\n        id: t\n        {text}\n    }}\n}}\n"
@@ -348,6 +437,15 @@ def shard_work(shard, nshards, payload):
                 continue
             if vc.accepted(g) or not any(d["kind"] == "error" for d in g["diagnostics"]):
                 t.violation("accepted-a-handler-that-must-be-rejected:" + label, {"source": src})
+        for label, cls, text, signal in GROUP_HANDLERS:
+            src = HEAD + f"    {cls} {{\n        id: t\n        {text}\n    }}\n}}\n"
+            r = vd.job({"id": label, "source": src, "modes": ["generate"]})
+            t.inc("reject_cases")
+            g = r["modes"]["generate"]
+            if r.get("has_syntax_error"):
+                raise vc.MachineryError("group handler document does not parse:\n" + src)
+            if vc.accepted(g) and not re.search(r"QObject::connect\([^\n]*::%s\b" % signal, g["header"] or ""):
+                t.violation("handler-in-object-group-accepted-but-not-connected:" + label, {"source": src})
     return t
 
 
